@@ -59,6 +59,9 @@ FIXED = [
     ("C10", "620e81d", "`new RegExp('(')`, `/(/` and 'a'.match('(') raised the regex engine's private RegExpError out of eval; `/(a|b)*c/.test('ab'.repeat(6000))` raised RegexStackOverflow"),
     ("C04", "620e81d", "RegExpError and RegexStackOverflow (host exception classes) escaped from Context.eval"),
     ("C10", "930c570", "`/(?=(a|a)*b)/.test('a'.repeat(40))` ran without bound: the lookahead and lookbehind sub-matchers had no step budget"),
+    ("C07", "4d3e914", "`try{[1,2,3].forEach(function(x){if(x==2)throw 'E'})}catch(e){}`: the catch saw undefined and forEach kept iterating (a throw unwound the call stack under a running native); `id.call(null,x)` inside map ran the rest of the program inside the native"),
+    ("C05", "4d3e914", "same defect: control flow after a throw crossing a native callback, and after Function.prototype.call/apply, continued in the wrong place"),
+    ("C08", "4d3e914", "same defect: call/apply re-entered the full run loop"),
     ("C04", "5541b57", "`a.reduce(function(acc,x){a.pop();return acc+x})` (and reduceRight) let a raw IndexError escape: the loop bound was computed before the callbacks ran"),
 ]
 
